@@ -7,7 +7,7 @@
 From Coq Require Import Lia String.
 From YV Require Import PyBase PyBaseProofs ShellMap Token Utils Scanner Rpal PState
                        Parser Expand Math Exec TokOk ScanOk ScanPlain RpalProofs
-                       ExecPlain ExpandSites.
+                       ExecPlain ExpandSites SpecialsProofs.
 Open Scope Z_scope.
 
 Section ExecUnk.
@@ -32,7 +32,9 @@ Section ExecUnk.
                   assoc (txt t) ms = None -> ucls ms t
     | u_comment t : tk t = KComment -> inert_txt t = true -> ucls ms t
     | u_action t : (tk t = KAction \/ tk t = KVoid) -> txt t = [] -> ucls ms t
-    | u_brace t : tk t = KSpecial -> (txt t = s_lbrace \/ txt t = s_rbrace) -> ucls ms t.
+    | u_brace t : tk t = KSpecial -> (txt t = s_lbrace \/ txt t = s_rbrace) -> ucls ms t
+    | u_special t v : tk t = KSpecial -> inert_txt t = true ->
+                      assoc (txt t) (t_special_values T) = Some v -> ucls ms t.
 
   (* names of the undeclared control words, in order *)
   Definition names (toks : list tok) : list str :=
@@ -102,6 +104,13 @@ Section ExecUnk.
     intros Hk [Ht|Ht]; unfold step_seq, txt_is; rewrite Hk, Ht; reflexivity.
   Qed.
 
+  Lemma step_special rec fuel st t b env_stop rout v :
+    tk t = KSpecial -> inert_txt t = true ->
+    assoc (txt t) (t_special_values T) = Some v ->
+    step_seq T rd rec fuel st (t :: b) env_stop rout =
+    rec (TSeq b env_stop (mk KText (pos t) v (pfix t) :: ActionT (pos t) :: rout)) st.
+  Proof. intros Hk Hi Hv. apply step_seq_special; assumption. Qed.
+
   (* skip_space keeps the class and loses neither names nor text *)
   Lemma skip_space_suffix b : exists pre, b = pre ++ skip_space b /\
     Forall (fun t => buf_is_space t = true) pre.
@@ -138,127 +147,11 @@ Section ExecUnk.
     (* a space token: all its characters are white space *)
     split; [reflexivity|].
     change (nst (t :: plains pre)) with (ns (txt t) ++ nst (plains pre)). rewrite I2, app_nil_r.
-    inversion Ht as [? He| | | |]; subst; try congruence;
+    inversion Ht as [? He| | | | |]; subst; try congruence;
       try (match goal with X : _ \/ _ |- _ => destruct X; congruence end).
     destruct He as [_ Hk]. rewrite Ek in Hk. destruct Hk as (c & r & Et & Hc & Hall).
     apply ns_all_space. rewrite forallb_forall in Hall. apply forallb_forall.
     intros a Ha. rewrite <- Hsp. apply Hall, Ha.
-  Qed.
-
-  Lemma ucls_macros ms ms' t : ms' = ms -> ucls ms t -> ucls ms' t.
-  Proof. intros E H. subst. exact H. Qed.
-
-  (* the main loop over a token list of the class *)
-  Theorem exec_unknowns : forall fuel toks rout st r,
-    Forall (ucls (macros st)) toks ->
-    exec T rd fuel (TSeq toks None rout) st = Ok r ->
-    exists st' ts out,
-      r = (st', ASeq out []) /\
-      remove_pure_action_lines isp (rev rout ++ ts) = Ok out /\
-      unknowns st' = fold_left add_unknown (names toks) (unknowns st) /\
-      macros st' = macros st /\
-      nst (plains ts) = nst (plains toks) /\
-      Forall (fun t => (pk t = true /\ is_action t = false /\ is_lang t = false) \/
-                       (pk t = false /\ txt t = [])) ts.
-  Proof.
-    induction fuel as [|k IH]; intros toks rout st r Hc H; [discriminate|].
-    cbn [exec step] in H. destruct toks as [|t b].
-    - cbn [step_seq] in H.
-      destruct (remove_pure_action_lines isp (rev rout)) as [o| | |] eqn:Er; try discriminate.
-      cbn [rbind] in H. inversion H; subst. exists st, [], o.
-      rewrite app_nil_r. repeat split; [exact Er | constructor].
-    - inversion Hc as [|? ? Ht Hb]; subst.
-      inversion Ht as [? He|? Hk Hd Hm|? Hk Hi|? Hk Htx|? Hk Hbr]; subst.
-      + (* plain token *)
-        rewrite (step_seq_etok T rd Htab) in H by exact He.
-        destruct (IH _ _ _ _ Hb H) as (st' & ts & out & Er & Ep & Eu & Em & En & Ef).
-        exists st', (t :: ts), out. split; [exact Er|].
-        split; [cbn [rev] in Ep; rewrite <- app_assoc in Ep; exact Ep|].
-        destruct He as [Hp Hkind].
-        assert (Hnm : match tk t with KMacro => [txt t] | _ => [] end = [] /\
-                      pk t = true /\ is_action t = false /\ is_lang t = false).
-        { unfold is_action, is_lang, pk. destruct (tk t); try contradiction; repeat split. }
-        destruct Hnm as (N1 & N2 & N3 & N4).
-        split; [unfold names; cbn [flat_map]; rewrite N1; exact Eu|].
-        split; [exact Em|]. split.
-        * unfold plains in *. cbn [filter]. rewrite N2.
-          unfold nst, RpalProofs.nst in *. cbn [flat_map]. rewrite En. reflexivity.
-        * constructor; [left; repeat split; assumption | exact Ef].
-      + (* undeclared control word *)
-        destruct (step_macro (exec T rd k) k st t b None rout Hk Hd Hm) as (st1 & Es & Eu1 & Em1).
-        rewrite Es in H.
-        destruct (skip_space_suffix b) as (pre & Eb & Hpre).
-        assert (Hb' : Forall (ucls (macros st)) (pre ++ skip_space b)) by (rewrite <- Eb; exact Hb).
-        apply Forall_app in Hb'. destruct Hb' as [Hpre' Hrest].
-        assert (Hcl : Forall (ucls (macros st1)) (ActionT (pos t) :: skip_space b)).
-        { rewrite Em1. constructor; [apply u_action; [left|]; reflexivity | exact Hrest]. }
-        destruct (IH _ _ _ _ Hcl H) as (st' & ts & out & Er & Ep & Eu & Em & En & Ef).
-        exists st', ts, out. split; [exact Er|]. split; [exact Ep|].
-        destruct (skipped_harmless _ _ Hpre' Hpre) as [Hn0 Hp0].
-        split; [|split; [congruence|split; [|exact Ef]]].
-        * rewrite Eu. unfold names at 2. cbn [flat_map]. rewrite Hk. cbn [app fold_left].
-          rewrite Eu1. f_equal. unfold names in *. cbn [flat_map]. cbn [tk ActionT mk app].
-          rewrite Eb at 2. rewrite flat_map_app, Hn0. reflexivity.
-        * rewrite En. unfold plains. cbn [filter].
-          assert (P1 : pk (ActionT (pos t)) = false) by reflexivity.
-          assert (P2 : pk t = false) by (unfold pk; rewrite Hk; reflexivity).
-          rewrite P1, P2. rewrite Eb at 2. rewrite filter_app, nst_app.
-          unfold plains in Hp0. rewrite Hp0. reflexivity.
-      + (* comment *)
-        rewrite step_comment in H by assumption.
-        destruct (IH _ _ _ _ Hb H) as (st' & ts & out & Er & Ep & Eu & Em & En & Ef).
-        exists st', ts, out. split; [exact Er|]. split; [exact Ep|].
-        assert (P2 : pk t = false) by (unfold pk; rewrite Hk; reflexivity).
-        unfold names, plains in *. cbn [flat_map filter]. rewrite P2, Hk.
-        repeat split; assumption.
-      + (* action token *)
-        rewrite step_action in H by assumption.
-        destruct (IH _ _ _ _ Hb H) as (st' & ts & out & Er & Ep & Eu & Em & En & Ef).
-        exists st', (t :: ts), out. split; [exact Er|].
-        split; [cbn [rev] in Ep; rewrite <- app_assoc in Ep; exact Ep|].
-        assert (P2 : pk t = false) by (unfold pk; destruct Hk as [Hk|Hk]; rewrite Hk; reflexivity).
-        assert (P3 : match tk t with KMacro => [txt t] | _ => [] end = [])
-          by (destruct Hk as [Hk|Hk]; rewrite Hk; reflexivity).
-        unfold names, plains in *. cbn [flat_map filter]. rewrite P2, P3.
-        repeat split; try assumption.
-        constructor; [right; split; [exact P2 | exact Htx] | exact Ef].
-      + (* grouping brace *)
-        rewrite step_brace in H by assumption.
-        destruct (IH _ _ _ _ Hb H) as (st' & ts & out & Er & Ep & Eu & Em & En & Ef).
-        exists st', (ActionT (pos t) :: ts), out. split; [exact Er|].
-        split; [cbn [rev] in Ep; rewrite <- app_assoc in Ep; exact Ep|].
-        assert (P1 : pk (ActionT (pos t)) = false) by reflexivity.
-        assert (P2 : pk t = false) by (unfold pk; rewrite Hk; reflexivity).
-        unfold names, plains in *. cbn [flat_map filter]. rewrite P1, P2, Hk.
-        repeat split; try assumption. constructor; [right; split; reflexivity | exact Ef].
-  Qed.
-
-  (* the words stay, the macros vanish: every character of the plain tokens
-     that is no white space is in the output, in order, and nothing else;
-     the undeclared names are recorded once each in order of first use *)
-  Theorem exec_unknowns_text fuel toks st st' out :
-    isp c_nl = true ->
-    Forall (ucls (macros st)) toks ->
-    exec T rd fuel (TSeq toks None []) st = Ok (st', ASeq out []) ->
-    nst out = nst (plains toks) /\
-    unknowns st' = fold_left add_unknown (names toks) (unknowns st) /\
-    macros st' = macros st.
-  Proof.
-    intros Hnl Hc H.
-    destruct (exec_unknowns fuel toks [] st _ Hc H) as (st2 & ts & o & Er & Ep & Eu & Em & En & Ef).
-    inversion Er; subst. cbn [rev app] in Ep.
-    split; [|split; assumption].
-    assert (HE0 : Forall (RpalProofs.E0) ts).
-    { eapply Forall_impl; [|exact Ef]. intros a Ha. unfold RpalProofs.E0. intros HX.
-      destruct Ha as [(A & B & C)|(A & B)]; [destruct HX; congruence | exact B]. }
-    pose proof (rpal_conserves isp Hnl ts o HE0 Ep) as Hcons.
-    unfold nst at 1. rewrite Hcons. rewrite <- En.
-    (* the tokens that are not plain carry no text *)
-    unfold nst, RpalProofs.nst, plains. clear - Ef.
-    induction Ef as [|t l Ht Hl IH]; [reflexivity|].
-    cbn [flat_map filter]. destruct Ht as [(A & _)|(A & B)]; rewrite A.
-    - cbn [flat_map]. rewrite IH. reflexivity.
-    - rewrite B. cbn. exact IH.
   Qed.
 
 End ExecUnk.
